@@ -1,6 +1,7 @@
 import QF.Drv.Parse
 import QF.Core.Compare
 import QF.Spec.Render
+import QF.Spec.JsonRead
 import QF.Spec.Sql
 import QF.Drv.FilterMirror
 /-
@@ -59,6 +60,8 @@ structure WritePending where
   cols : List Bytes := []
   emptyNull : Bool := false
   wrote : Bool := false
+  /-- the bytes ToJSON wrote, once they have been accepted as denoting the frame -/
+  bytes : Option Bytes := none
   sqlEscape : Nat := 0
   sqlIncr : Bool := false
   sqlTable : Bytes := []
@@ -554,8 +557,27 @@ def histLine (s : HState) (toks : Array String) : HState × List Msg :=
                 else .exact .err false
               else .exact (.ok (jsonReread f)) false
             let v := judge exp obs
-            (s', [if v.ok then { cls := "OK", op := op, kind := "", detail := "" }
-                  else { cls := "SPEC-MISMATCH", op := op, kind := v.kind, detail := s!"reading back what was written from {showFrame f}: {v.detail}" }])
+            -- a second, independent expectation for ReadJSON: the spec of the READER (`readJsonCfgS`, QF/Spec/JsonRead.lean:
+            -- RFC 8259 parser, `jsonDocS`, `newS` with the column order and enum declarations the harness supplies, a correct
+            -- IEEE number parser) applied to the bytes that were actually written. `C14EndToEnd.readjson_tojson_partial` proves the
+            -- two expectations equal (up to what the configuration supplies); a disagreement here is an error of the driver.
+            let second : List Msg :=
+              if wp.kind == "json" then
+                match wp.bytes with
+                | none => []
+                | some out =>
+                  let r2 : Res := match Json.parse out with
+                    | some doc => readJsonCfgS pnumS doc f.names
+                        (f.cols.filterMap (fun c => if c.ty == .enum then some (c.name, c.vals) else none))
+                    | none => .err
+                  match r2 with
+                  | .ok g =>
+                    if frameSame false (jsonReread f) g then []
+                    else [{ cls := "DRIVER-ERROR", op := op, kind := "expectations", detail := s!"the two expectations for ReadJSON of what ToJSON wrote from {showFrame f} disagree: jsonReread gives {showFrame (jsonReread f)}, readJsonS of the written bytes gives {showFrame g}" }]
+                  | .err => [{ cls := "DRIVER-ERROR", op := op, kind := "expectations", detail := s!"the two expectations for ReadJSON of what ToJSON wrote from {showFrame f} disagree: jsonReread gives {showFrame (jsonReread f)}, readJsonS of the written bytes gives an error" }]
+              else []
+            (s', (if v.ok then { cls := "OK", op := op, kind := "", detail := "" }
+                  else { cls := "SPEC-MISMATCH", op := op, kind := v.kind, detail := s!"reading back what was written from {showFrame f}: {v.detail}" }) :: second)
         | none => failL "R" "R -2 without W"
       else if fid == -1 then
         -- a frame of Grouper.QFrames()
@@ -627,7 +649,7 @@ def histLine (s : HState) (toks : Array String) : HState × List Msg :=
               else if wp.kind == "csv" then csvDenotes f wp.hdr wp.cols out
               else if hasInf f then none     -- outside the property's quantifier (floats finite or NaN)
               else jsonDenotes f out
-            let s' := { s with wr := some { wp with wrote := true } }
+            let s' := { s with wr := some { wp with wrote := true, bytes := if wp.kind == "json" && why.isNone then some out else none } }
             match why with
             | none =>
               -- C16 on the ToJSON path: float tokens are the shortest round-tripping positional decimals
